@@ -43,7 +43,7 @@
 (*   uri.Update              ParseURI("http://h.example/p/q?x=1#f").Update(s) *)
 (*   uri.UpdateBytes.zero    (&URI{}).UpdateBytes(s)                        *)
 (*   req.SetRequestURI       (&Request{}).SetRequestURI(s); req.URI()       *)
-(*   req.SetRequestURI.host  same with req.SetHost("h.example")             *)
+(*   req.SetRequestURI.host  same with req.Header.SetHost("h.example")      *)
 (*   args.ParseBytes         (&Args{}).ParseBytes(s); VisitAll/Peek/...     *)
 (*   req.PostArgs            form body s; req.PostArgs()                    *)
 (*   cookie.Parse            (&Cookie{}).Parse(s)  (Set-Cookie value)       *)
@@ -116,7 +116,7 @@ Families == DOMAIN Alpha
 
 (* parser, family, MaxLen in ParserCalls_mc.cfg, in the quick tier, in the thorough tier, cap on the length of the   *)
 (* random longer inputs (0 = RandMax; the two parsers that turn a peer-declared length into an allocation are capped  *)
-(* so that the harness never asks for gigabytes: runs of up to 8 digits)                                                *)
+(* so that the harness never asks for gigabytes: at most 7 digit tokens in a row)                                      *)
 Table == <<
   <<"uri.ParseURI",           "uri",       2, 4, 5, 0>>,
   <<"uri.Parse.emptyHost",    "uri",       2, 3, 4, 0>>,
